@@ -168,7 +168,9 @@ impl Topo {
     pub(crate) async fn new(wcfg: &WorldCfg, nodes: Vec<NodeCfg>, families: Vec<Family>, hold: u64) -> Topo {
         let mut wcfg = wcfg.clone();
         for n in &nodes {
-            wcfg.peers.push(peer_spec(n, &families, hold));
+            let mut ps = peer_spec(n, &families, hold);
+            ps.cluster_id = wcfg.cluster_id;
+            wcfg.peers.push(ps);
         }
         let w = World::new(&wcfg).await;
         let start = tokio::time::Instant::now();
